@@ -76,7 +76,7 @@ MUTANTS = [
     ("c18-elan-filter-inverted", ["C18"], C, "        for tier_name in eaf.get_tier_names():\n            if selected_tiers is not None and tier_name not in selected_tiers:", "        for tier_name in eaf.get_tier_names():\n            if selected_tiers is not None and tier_name in selected_tiers:"),
     ("c18-newline-removed", ["C18"], C, "        with open(path, newline='') as csv_file:", "        with open(path) as csv_file:"),
     ("c19-no-security", ["C19"], T, "            if len(continuum._annotations[annotator]) == 0:\n                continuum.add(annotator, security.segment, security.annotation)", "            pass"),
-    ("c19-split-drops-piece", ["C19"], T, "                    continuum.add(annotator, Segment(to_split.segment.start, cut), to_split.annotation)\n                except ValueError:", "                except ValueError:"),
+    ("c19-split-drops-piece", ["C19"], T, "                    continuum.add(annotator, right, to_split.annotation)\n                    continuum.add(annotator, left, to_split.annotation)", "                    continuum.add(annotator, right, to_split.annotation)"),
     ("c19-shift-both-ends-together", ["C19"], T, "                while start_seg >= end_seg:", "                while start_seg > end_seg:"),
     ("c20-alpha-not-forwarded", ["C20"], L, "dissim = CombinedCategoricalDissimilarity(alpha=args.alpha,", "dissim = CombinedCategoricalDissimilarity(alpha=1.0,"),
     ("c20-seed-per-file", ["C20"], L, "    for file_path in input_files:\n        start = time.time()", "    for file_path in input_files:\n        if args.seed is not None:\n            np.random.seed(args.seed)\n        start = time.time()"),
